@@ -718,8 +718,11 @@ def run_shard(desc, tier, seed):
             run_hash_collisions(cfg, acc)
         elif desc['what'] == 'path':
             vt = desc.get('variant', tier)
+            # horizon: the clean tree closes at <= 30k (quick) / 500k (thorough) states in total; a change that
+            # adds hidden per-object state (kept by value in the key) must not turn the search into an endless one
             fix = core.parallel_bfs([([], Path())], successors_path(vt, cfg), path_key,
-                                    inspect_path(vt, cfg), acc, jobs=16)
+                                    inspect_path(vt, cfg), acc, jobs=16,
+                                    max_states=100000 if tier == 'quick' else 3000000)
             acc.extra['fixpoint'] = {'path/%s/%s' % (vt, cfg_name(cfg)): bool(fix)}
         else:
             spec = desc['spec']
